@@ -364,6 +364,22 @@ void World::opIO(const Step &s)
         stats.fired["sweep_io_cut_positions"] += long(cuts);
     }
     got.clear();
+    // the file stays on the simulated disk (half of the files): a later
+    // `ioread` step reads it again, possibly after the writing forest was
+    // destroyed and re-created or after cleanup()/initialize() - the only
+    // state that survives a restart
+    if (!failed() && (s.a[5] % 2 == 1 || s.a[5] % 4 == 2)) {
+        FileSlot* fs = new FileSlot;
+        fs->bytes = disk;
+        fs->kind = F.spec.kind; fs->rel = F.spec.rel; fs->red = F.spec.red; fs->dom = F.spec.dom;
+        fs->sizes = doms[F.spec.dom].m.sizes;
+        fs->lvl2var = F.lvl2var;
+        fs->epoch = lib_epoch; fs->writer_fid = F.fid; fs->writer_slot = fi;
+        for (EdgeSlot* r : roots) { fs->roots.push_back(r->tab); fs->oracle.push_back(r->oracle); }
+        if (files.size() < 6) files.push_back(fs);
+        else { size_t k = s.a[4] % files.size(); delete files[k]; files[k] = fs; }
+        stats.fired["file_kept_on_disk"]++;
+    }
     if (created) {
         // reader-created forest: audit, then destroy it
         if (!failed()) {
@@ -378,6 +394,141 @@ void World::opIO(const Step &s)
         // audited by the per-step monitors (canonical, exact counts)
     }
     note(OC_OK, mix64(disk.size(), nroots));
+}
+
+// ----------------------------------------------------------------------
+// ioread: read a file that an earlier `io` step left on the simulated disk.
+// a[0] file, a[1] target mode (0,1: a live forest of the same kind, rule,
+// domain sizes and variable order - the writing forest itself, its
+// re-creation after a destruction or a restart, or a sibling; 2: a forest
+// created from the file), a[2] transport, a[3] forest choice, a[4] how many
+// of the edges read are kept by the client afterwards
+// ----------------------------------------------------------------------
+void World::opIORead(const Step &s)
+{
+    cur_family = "io";
+    if (files.empty()) { note(OC_SKIP); return; }
+    FileSlot &fs = *files[s.a[0] % files.size()];
+    auto defaultOrder = [&]() {
+        for (size_t k = 1; k < fs.lvl2var.size(); k++) if (fs.lvl2var[k] != int(k)) return false;
+        return true;
+    };
+    unsigned mode = s.a[1] % 3;
+    int ti = pickForest(s.a[3], [&](const ForRT &T) {
+        return T.spec.rel == fs.rel && T.spec.kind == fs.kind && T.spec.red == fs.red
+            && doms[T.spec.dom].m.sizes == fs.sizes && T.lvl2var == fs.lvl2var;
+    });
+    int di = -1;
+    for (size_t d = 0; d < doms.size(); d++) if (doms[d].alive && doms[d].m.sizes == fs.sizes) { di = int(d); break; }
+    const bool canCreate = di >= 0 && defaultOrder() && !(fs.rel && fs.red == 0);   // KF-C14-1
+    if (mode == 2 && !canCreate) mode = 0;
+    if (mode != 2 && ti < 0) { if (canCreate) mode = 2; else { note(OC_SKIP); return; } }
+    const unsigned transport = s.a[2] % 2;
+    const unsigned nroots = unsigned(fs.roots.size());
+    desc << "read the " << nroots << "-root file written earlier by a " << fkName(FKind(fs.kind)) << (fs.rel ? " rel" : " set")
+         << " forest via " << (transport ? "FILE*" : "iostream") << " into "
+         << (mode == 2 ? std::string("a forest created from the file") : fn(ti));
+    if (tracing) { fprintf(stderr, "   doing: %s\n", desc.str().c_str()); fflush(stderr); }
+    std::vector<dd_edge> got;
+    forest* created = nullptr;
+    long rshorts = 0;
+    try {
+        mdd_reader* Rd = nullptr;
+        chunk_ibuf ib(fs.bytes, s.seed ^ 0x33);
+        std::istream is(&ib);
+        cookie_state cs { &fs.bytes, 0, Rng(s.seed ^ 0x44), 0 };
+        cookie_io_functions_t fn = { ck_read, nullptr, nullptr, nullptr };
+        FILE* fp = nullptr;
+        input* in = nullptr;
+        if (transport == 0) in = new istream_input(is);
+        else { fp = fopencookie(&cs, "r", fn); in = new FILE_input(fp); }
+        try {
+            if (mode == 2) { Rd = new mdd_reader(*in, doms[di].d); created = Rd->getForest(); }
+            else Rd = new mdd_reader(*in, forests[ti].f);
+            if (Rd->numRoots() != nroots) {
+                std::ostringstream o;
+                o << "file written with " << nroots << " roots is read later with " << Rd->numRoots();
+                failNow("F1", cur_family, o.str());
+            }
+            for (unsigned i = 0; i < nroots && !failed(); i++) {
+                dd_edge e(created ? created : forests[ti].f);
+                Rd->readRootEdge(e);
+                got.push_back(e);
+            }
+        }
+        catch (...) { delete Rd; delete in; if (fp) fclose(fp); throw; }
+        delete Rd; delete in; if (fp) fclose(fp);
+        rshorts = ib.refills + cs.shorts;
+    }
+    catch (MEDDLY::error &e) {
+        if (ti >= 0 && mode != 2) markErrored(ti);
+        std::ostringstream o;
+        o << "exchange-file reader threw " << e.getName() << " (" << e.getFile() << ":" << e.getLine()
+          << ") on a file the writer produced earlier (" << fkName(FKind(fs.kind)) << (fs.rel ? " rel" : " set")
+          << ", transport " << transport << ", mode " << mode << ")";
+        failNow("O2", cur_family, o.str());
+        return;
+    }
+    stats.fired["short_reads"] += rshorts;
+    stats.fired["file_read_later"]++;
+    if (fs.epoch != lib_epoch) stats.fired["file_read_after_library_restart"]++;
+    else if (fs.writer_slot >= 0 && (!forests[fs.writer_slot].alive || forests[fs.writer_slot].fid != fs.writer_fid))
+        stats.fired["file_read_after_writer_forest_destroyed"]++;
+    if (failed()) return;
+    stats.opcount[std::string("ioread:") + (transport ? "FILE" : "stream") + ":mode" + std::to_string(mode)]++;
+    ForRT tmp;
+    if (created) {
+        tmp.spec.dom = di; tmp.spec.rel = fs.rel; tmp.spec.kind = fs.kind;
+        tmp.f = created; tmp.alive = true; tmp.lvl2var = fs.lvl2var;
+        tmp.spec.red = created->isFullyReduced() ? 0 : (created->isQuasiReduced() ? 1 : 2);
+        tmp.spec.storage = 3; tmp.spec.del = 1;
+        if (created->isForRelations() != (fs.rel != 0)) failNow("F1", cur_family, "forest created from the file differs in shape from the writing forest");
+    } else tmp = forests[ti];
+    const bool exactKind = fs.kind != FK_MTR && fs.kind != FK_EVT;
+    for (unsigned i = 0; i < nroots && !failed(); i++) {
+        if (!fs.oracle[i]) continue;
+        Table t;
+        libTable(tmp, got[i], t);
+        if (!t.close(fs.roots[i])) {
+            std::ostringstream o;
+            o << "root " << i << " of " << nroots << " read later (" << fkName(FKind(fs.kind))
+              << (fs.rel ? " rel" : " set") << ", mode " << mode << ") denotes a different function";
+            failNow("F1", cur_family, o.str());
+            break;
+        }
+        if (exactKind && !t.same(fs.roots[i])) { failNow("F1", cur_family, "exact-valued root read later inexactly"); break; }
+        // repeated roots of the file are one edge
+        for (unsigned j = 0; j < i && exactKind; j++) {
+            if (fs.oracle[j] && fs.roots[j].same(fs.roots[i]) && got[j] != got[i]) {
+                failNow("F1", cur_family, "two roots of the file denoting one function are read as different edges");
+                break;
+            }
+        }
+    }
+    if (created) {
+        got.clear();
+        if (!failed()) {
+            ForRT cf = tmp;
+            auditForestStructure(cf);
+            if (!failed()) auditRefcounts(cf);
+        }
+        forest::destroy(created);
+    } else if (!failed() && exactKind) {
+        // the client keeps some of the edges: from now on they are held edges
+        // like any other (I1 at every pass, I2 against every other edge of
+        // the forest denoting the same function, reference recounts)
+        unsigned keep = s.a[4] % 3;
+        for (unsigned i = 0; i < nroots && keep; i++) {
+            if (!fs.oracle[i]) continue;
+            EdgeSlot* res = newEdge(s.client, ti);
+            *res->e = got[i];
+            res->tab = fs.roots[i];
+            res->oracle = true;
+            keep--;
+        }
+    }
+    got.clear();
+    note(OC_OK, mix64(fs.bytes.size(), nroots));
 }
 
 bool World::orderChanged(const ForRT &F) const
@@ -721,6 +872,7 @@ void World::opRestart(const Step &s)
     createDomains();
     for (size_t i = 0; i < forests.size(); i++) createForest(int(i));
     stats.fired["library_restart"]++;
+    lib_epoch++;
     note(OC_OK);
 }
 
